@@ -5,7 +5,7 @@ from urllib.parse import urljoin
 from xml.etree import ElementInclude as xinclude
 from xml.etree import ElementTree as etree
 
-from xsdata.exceptions import XmlHandlerError
+from xsdata.exceptions import ParserError, XmlHandlerError
 from xsdata.formats.dataclass.parsers.mixins import XmlHandler
 from xsdata.models.enums import EventType
 from xsdata.utils import namespaces
@@ -40,7 +40,7 @@ class XmlEventHandler(XmlHandler):
             xinclude.include(root, loader=loader)
             ctx = iterwalk(root, {})
         else:
-            ctx = etree.iterparse(source, EVENTS)  # nosec
+            ctx = iterparse(source)
 
         return self.process_context(ctx, ns_map)
 
@@ -113,6 +113,31 @@ class XmlEventHandler(XmlHandler):
             result[prefix] = uri
 
         return result
+
+
+def iterparse(source: Any) -> Iterator[tuple[str, Any]]:
+    """Parse the source incrementally and emit events.
+
+    For an encoding that is not built into expat the tokenizer asks the
+    python codecs, their lookup and value errors are reported as parser
+    errors like every other tokenizer error.
+
+    Args:
+        source: The xml source, can be a file resource or an input stream
+
+    Yields:
+        An iterator of events
+    """
+    context = iter(etree.iterparse(source, EVENTS))  # nosec
+    while True:
+        try:
+            event = next(context)
+        except StopIteration:
+            return
+        except (LookupError, ValueError) as e:
+            raise ParserError(e)
+
+        yield event
 
 
 def iterwalk(element: etree.Element, ns_map: dict) -> Iterator[tuple[str, Any]]:
